@@ -131,4 +131,25 @@ CHECKS = {
                    "reaches EOF within 20 s or a rejection while the disk is alive is reported as inconclusive, not as a violation.",
         assumptions=["Flush/Close are only required to return while the disk is alive (they block by design otherwise)"],
     ),
+    "C01": dict(
+        pkg=".", hdir="root", test="TestVerif_C01", wal=True,
+        quick=dict(shards=16, checks=5000, timeout=600),
+        thorough=dict(shards=16, checks=40000, timeout=3000),
+        technique="property-based testing (rapid): validity predicate over every emitted record against a harness-kept ground-truth stream",
+        rule="rapid-generated 1-4 channel streams (any baseline incl. 0/32767/32768/65535, noise, fully random, 0-8 pulses of 5 shapes and "
+             "either polarity placed preferentially within +-nsamp of block boundaries; signed/unsigned), record lengths 4..64 with "
+             "pre-trigger 3..nsamp-1, block partitions (all 1-sample, 1..npre, 1..3*nsamp, one block, record-sized, mixed tiny/large), first "
+             "frame 0..2^40 incl. 2^31/2^32 +-600, exact or jittered block stamps, and a configuration history: settings restored from a "
+             "saved config file or ConfigureTriggers (edge/level/auto mixes, edge-multi in 3 modes), then 0-4 of {retrigger, "
+             "ConfigurePulseLengths, group connect/disconnect, stop coupling} between blocks; fed through the real AnySource."
+             "ProcessSegments. non-trivial = >= 1 record whose excerpt starts before the block being processed or that is emitted after a "
+             "trim; distinct = FNV-64 of the case",
+        level_text="For every record that reaches the publish channel (primary or secondary, any trigger type) the harness checks declared "
+                   "lengths against the configuration in force, bit-identity of the samples with the delivered stream around the stated "
+                   "trigger frame, the trigger time the block stamps assign to that frame, and the channel labels; any panic in block "
+                   "processing is a violation (write-ahead log = replay).",
+        level_note="Frame numbering of delivered blocks is contiguous (gaps are C04's business). With jittered stamps the time extrapolated "
+                   "from the block being processed or from the block containing the sample is accepted.",
+        assumptions=["record lengths and edge-multi settings respect the documented validity rules", "decimation is never enabled in production code and is excluded"],
+    ),
 }
